@@ -1,7 +1,7 @@
 from __future__ import annotations
 
 from ._bit_vector import BitVector, BitOrder
-from ._integer import Integer
+from ._integer import Integer, _int_truncdiv
 from ._boolean import Null, Full
 
 from ._intrinsic import _intrinsic
@@ -284,7 +284,7 @@ class Signed(BitVector):
 
         if rhs == 0:
             return Signed[result_width]()
-        return Signed[result_width](int(lhs / rhs))
+        return Signed[result_width](_int_truncdiv(lhs, rhs))
 
     @_intrinsic
     def _cohdl_rtruncdiv_(self, lhs: Signed) -> Signed:
@@ -301,7 +301,7 @@ class Signed(BitVector):
 
         if rhs == 0:
             return Signed[result_width]()
-        return Signed[result_width](int(lhs / rhs))
+        return Signed[result_width](_int_truncdiv(lhs, rhs))
 
     @_intrinsic
     def __mod__(self, rhs: Signed) -> Signed:
@@ -359,7 +359,7 @@ class Signed(BitVector):
         if rhs == 0:
             return Signed[result_width]()
 
-        return Signed[result_width](lhs - rhs * int(lhs / rhs))
+        return Signed[result_width](lhs - rhs * _int_truncdiv(lhs, rhs))
 
     @_intrinsic
     def _cohdl_rrem_(self, lhs: Signed) -> Signed:
@@ -379,7 +379,7 @@ class Signed(BitVector):
         if rhs == 0:
             return Signed[result_width]()
 
-        return Signed[result_width](lhs - rhs * int(lhs / rhs))
+        return Signed[result_width](lhs - rhs * _int_truncdiv(lhs, rhs))
 
     @_intrinsic
     def __lshift__(self, rhs) -> Signed:
